@@ -334,6 +334,8 @@ QUERY["any"] = [1, True, 1.0, "a", None, 0, 2.5, "zz", False]
 OTHER_POOL["any"] = ["a", "b", "1"]
 SRC_KINDS = ["none", "dict", "pairs", "iter", "gen", "mapping", "mappingproxy", "compat", "othercfg", "otherfield",
              "self"]
+CLASH_NAMES = ("iterable", "self")     # parameter names of DictProxy.update (open finding F51)
+CLASH_VALUES = {"si": [0, 5, None, "7", 100], "ab": [False, True, None, 0, 1]}
 OR_KINDS = ["dict", "pairs", "compat", "othercfg", "otherfield", "self"]   # `|` with other mappings is their __ror__
 KW_KEYS = {"str": ["a", "B", "c ", "zz"], "int": ["7", "5", "abc", "100", "101"], "any": ["a", "b", "k"]}
 
@@ -448,6 +450,18 @@ def _dict_matrix(tier):
             for ops in single:
                 cases.append({"kind": "dict", "field": dk, "init": [tuple(p) for p in init], "ops": list(ops) + [("copy",)],
                               "src": "matrix"})
+            # region of the open finding F51: keyword names that collide with update's own parameters
+            # (always the last operation of a history: proxy and twin differ afterwards)
+            if dk in CLASH_VALUES:
+                cv = CLASH_VALUES[dk]
+                clash = [[("update", ("none", []), [("iterable", x)])] for x in cv]
+                clash += [[("update", ("none", []), [("self", cv[0])])],
+                          [("update", ("dict", [(k[0], v[0])]), [("iterable", cv[0])])],
+                          [("update", ("none", []), [(KW_KEYS[kn][0], v[0]), ("iterable", cv[0]), (KW_KEYS[kn][-1], v[0])])],
+                          [("setitem", k[0], v[0]), ("update", ("pairs", [(k[0], v[0])]), [("self", cv[1]), ("iterable", cv[0])])]]
+                for ops in clash:
+                    cases.append({"kind": "dict", "field": dk, "init": [tuple(p) for p in init], "ops": list(ops),
+                                  "src": "matrix"})
     return cases
 
 
@@ -512,6 +526,12 @@ def _dict_random(rng, i, maxops):
         else:
             src = rsrc()
             ops.append(("or", src) if src[0] in OR_KINDS else ("update", src, []))
+    if dk in CLASH_VALUES and rng.random() < 0.06:
+        kw = [(rng.choice(CLASH_NAMES), rng.choice(CLASH_VALUES[dk]))]
+        if rng.random() < 0.5:
+            kw.insert(rng.randint(0, 1), (rng.choice(KW_KEYS[kn]), rng.choice(okv)))
+        src = rsrc() if rng.random() < 0.3 else ("none", [])
+        ops.append(("update", src, kw))
     return {"kind": "dict", "field": dk, "init": init, "ops": ops, "src": "random"}
 
 
@@ -1290,6 +1310,20 @@ def oracle(c, obs):
     return _oracle_dict(c, obs)
 
 
+def _clash_steps(c):
+    if c.get("kind") != "dict":
+        return []
+    return [n for n, op in enumerate(c["ops"]) if op[0] == "update" and any(k in CLASH_NAMES for k, _ in op[2])]
+
+
+def classify(c, msg):
+    """F51 (open): DictProxy.update is not positional-only; the keyword form cannot carry 'iterable' / 'self'"""
+    for n in _clash_steps(c):
+        if msg.startswith("step %d " % n):
+            return "F51"
+    return None
+
+
 def tags(c, obs):
     t = set()
     if c["kind"] == "slots":
@@ -1305,6 +1339,8 @@ def tags(c, obs):
         pout, _, tout, _ = step
         res = "rejected" if tout == "skipped" else (pout[0] if pout[0] == "ok" else "err-" + pout[1])
         t.add("%s:%s:%s" % (kind, op[0], res))
+        if kind == "dict" and op[0] == "update" and any(k in CLASH_NAMES for k, _ in op[2]):
+            t.add("dict:update:kw-clash(F51):" + res)
         if op[0] in ("extend", "iadd", "add", "setslice", "update", "ior", "new", "or"):
             src = op[-1] if kind == "list" else op[1]
             if isinstance(src, (tuple, list)) and src and isinstance(src[0], str):
